@@ -19,6 +19,7 @@ package main
 // redirect address — it is neither closed on nor left with no reply, no relay and no close.
 
 import (
+	"math/big"
 	"bytes"
 	"encoding/binary"
 	"fmt"
@@ -196,7 +197,7 @@ func hiddenArg(tr string, pkt []byte) string {
 }
 
 // checkAccepted evaluates the property's clauses for an accepted connection.
-func (e *c07env) checkAccepted(kind, desc string, tr string, pkt []byte, admin bool) {
+func (e *c07env) checkAccepted(kind, desc string, tr string, pkt []byte, admin bool, joinsExisting ...bool) {
 	parsed, rnd, ct := seenBy(tr, pkt)
 	fail := func(clause string, extra map[string]any) {
 		d := map[string]any{"clause": clause, "case": desc, "transport": tr, "first_packet": hx(pkt), "server_time_ns": e.cur.UnixNano(),
@@ -225,8 +226,11 @@ func (e *c07env) checkAccepted(kind, desc string, tr string, pkt []byte, admin b
 	ts := plainTS(pt)
 	nowNs := e.cur.UnixNano()
 	tol := int64(180 * time.Second)
-	if !(nowNs-tol < ts*1e9 && ts*1e9 < nowNs+tol) {
-		fail("timestamp-outside-window", map[string]any{"timestamp": ts, "offset_ns": ts*1e9 - nowNs})
+	// exact arithmetic: ts is whatever 64-bit value the payload carries, ts*1e9 need not fit an int64
+	tsNs := new(big.Int).Mul(big.NewInt(ts), big.NewInt(1e9))
+	off := new(big.Int).Sub(tsNs, big.NewInt(nowNs))
+	if off.CmpAbs(big.NewInt(tol)) >= 0 {
+		fail("timestamp-outside-window", map[string]any{"timestamp": ts, "offset_ns": off.String()})
 	}
 	if kind != "dispatch" {
 		return
@@ -252,7 +256,9 @@ func (e *c07env) checkAccepted(kind, desc string, tr string, pkt []byte, admin b
 	if pt[28] > 3 {
 		fail("unknown-encryption-method", map[string]any{"enc": pt[28]})
 	}
-	authorised := e.active[hx(uid)]
+	// a connection that joins a session the user already has rides on that session's authorisation; a NEW session
+	// needs the user to be authorised now, cached in the panel or not
+	authorised := e.active[hx(uid)] && len(joinsExisting) > 0 && joinsExisting[0]
 	for _, b := range e.bypass {
 		if bytes.Equal(b, uid) {
 			authorised = true
@@ -304,7 +310,7 @@ func (e *c07env) conn(stream []byte, desc string) string {
 				x = 1
 			}
 			decision = fmt.Sprintf("proxy uid=%s sid=%d existing=%d", hx(uid), sid, x)
-			e.checkAccepted("dispatch", desc, tr, pkt, false)
+			e.checkAccepted("dispatch", desc, tr, pkt, false, existedBefore)
 			e.active[hx(uid)] = true
 		} else {
 			decision = "admin"
@@ -448,6 +454,31 @@ func c07(c *ctx) {
 	}
 	e.cur = T
 
+	// ---- (1a) timestamps far outside the window: beyond what a time.Duration can express (about 292 years),
+	// around the int64 limits, and "negative" ones; the server clock stands at T ----
+	{
+		year := int64(365 * 86400)
+		far := []int64{1 << 31, 1 << 32, 1 << 33, 250 * year, 292 * year, 293 * year, 300 * year, 1000 * year, 1 << 40, 1 << 53, 1<<62 - T.Unix(),
+			1<<63 - 1 - T.Unix(), -(1 << 31), -(250 * year), -(293 * year), -(1000 * year), -(1 << 40), -(1 << 62), -T.Unix() - 1, -T.Unix() - (1 << 62)}
+		for fi, f := range flavours {
+			if !c.thorough() && fi != 0 && fi != 3 {
+				continue
+			}
+			for _, d := range far {
+				for level := 0; level < 2; level++ {
+					e.cur = T
+					pk := e.packet(r, f.tr, f.br, byp, uint32(20+fi), "shadowsocks", 1, false, time.Unix(T.Unix()+d, 0), nil)
+					if level == 0 {
+						e.first(f.tr, pk.pkt, fmt.Sprintf("far timestamp %+ds", d))
+					} else {
+						e.conn(pk.pkt, fmt.Sprintf("far timestamp %+ds", d))
+					}
+					o.case_(fmt.Sprintf("far/%d/%d/%d", fi, d, level), true)
+				}
+			}
+		}
+	}
+
 	// ---- (1b) forged without the server's key: degenerate ephemeral values ----
 	// For a small-order X25519 point the shared secret does not depend on any private key (it is all-zero), so
 	// anyone can seal a payload "to" it.  golang.org/x/crypto's X25519 refuses such points; the server must never
@@ -558,6 +589,23 @@ func c07(c *ctx) {
 		e.conn(mk(dbu, 2, "openvpn", 1), "active user, credit exhausted meanwhile, same session")
 		e.conn(mk(dbu, 9, "openvpn", 1), "active user, credit exhausted meanwhile, new session")
 		e.setUser(dbu, 1000, 1000, T.Unix()+100000, 5)
+		// the same for each way an active user's authorisation can lapse (the panel keeps the user cached, so only
+		// the new-session authorisation looks at the database)
+		e.conn(mk(dbu, 2, "openvpn", 1), "active user re-credited, same session")
+		e.setUser(dbu, 1000, 0, T.Unix()+100000, 5)
+		e.conn(mk(dbu, 11, "openvpn", 1), "active user, down credit exhausted meanwhile (up credit left), new session")
+		e.setUser(dbu, 1000, -7, T.Unix()+100000, 5)
+		e.conn(mk(dbu, 12, "openvpn", 1), "active user, down credit negative meanwhile, new session")
+		e.setUser(dbu, -1, 1000, T.Unix()+100000, 5)
+		e.conn(mk(dbu, 13, "openvpn", 1), "active user, up credit negative meanwhile (down credit left), new session")
+		e.setUser(dbu, 1000, 1000, T.Unix()-1, 5)
+		e.conn(mk(dbu, 14, "openvpn", 1), "active user, expired meanwhile, new session")
+		e.setUser(dbu, 1000, 1000, T.Unix(), 5)
+		e.conn(mk(dbu, 15, "openvpn", 1), "active user, expires this very second, new session")
+		e.setUser(dbu, 1000, 1000, T.Unix()+100000, 1)
+		e.conn(mk(dbu, 16, "openvpn", 1), "active user, session cap lowered to the sessions it has, new session")
+		e.setUser(dbu, 1000, 1000, T.Unix()+100000, 5)
+		e.conn(mk(dbu, 17, "openvpn", 1), "active user, authorisation restored, new session")
 		// methods
 		e.conn(mk(byp, 5, "unknown", 1), "unknown proxy method")
 		e.conn(mk(byp, 5, "Shadowsocks", 1), "method in the wrong case")
